@@ -1,10 +1,17 @@
 #!/usr/bin/env python3
 """Copy a confirmed seeded change into /verif/seeded/<PID>_<k>/ with meta.json.
-usage: import_seed.py PID k "<detected-by text>" [status]"""
+usage: import_seed.py PID k "<detected-by text>" [status] [--from DIR k0]   (round 2: DIR=/tmp/seed/C03r2, k0 = its seed number)"""
 import json, os, re, shutil, sys
 pid, k, detected = sys.argv[1], sys.argv[2], sys.argv[3]
 status = sys.argv[4] if len(sys.argv) > 4 else 'detected'
 src = f"/tmp/seed/{pid}/SEED/{k}"
+srcpid, srck = pid, k
+if '--from' in sys.argv:
+    i = sys.argv.index('--from')
+    srcdir, srck = sys.argv[i + 1], sys.argv[i + 2]
+    src = f"{srcdir}/SEED/{srck}"
+    srcpid = os.path.basename(srcdir.rstrip('/'))
+    if status == '--from': status = 'detected'
 dst = f"/verif/seeded/{pid}_{k}"
 os.makedirs(dst, exist_ok=True)
 shutil.copy(f"{src}/patch.diff", f"{dst}/patch.diff")
@@ -12,7 +19,7 @@ if os.path.isdir(f"{dst}/demo"): shutil.rmtree(f"{dst}/demo")
 shutil.copytree(f"{src}/demo", f"{dst}/demo")
 notes = open(f"{src}/notes.md").read() if os.path.exists(f"{src}/notes.md") else ''
 shutil.copy(f"{src}/notes.md", f"{dst}/notes.md") if notes else None
-log = f"/var/tmp/neumann-verif/seedconfirm/{pid}_{k}.log"
+log = f"/var/tmp/neumann-verif/seedconfirm/{srcpid}_{srck}.log"
 res = ''
 if os.path.exists(log):
     for l in open(log):
